@@ -119,7 +119,7 @@ def out_ranks(item, prog):
     """Output ranks under a rank-1 x (via the interpreter); None when undefined or not constant."""
     ranks = None
     for feeds, attrs in sggen.valuations(item, None):
-        if feeds["x"].ndim != 1 or feeds["x"].shape[0] == 0:
+        if feeds["x"].ndim != 1 or feeds["x"].shape[0] == 0 or ("y" in feeds and feeds["y"].ndim != 1):
             continue
         try:
             outs = sg.Interp(prog).run(feeds, attrs)
@@ -228,17 +228,17 @@ def check_accepted(item):
 
 # text mutants inserted as a new statement after an existing one: (kind, lines, required, loop_only)
 INSERTS = [
-    ("augmented-assignment", ["u += x"], True, False),
-    ("multi-target-assignment", ["u = v = x + 1"], True, False),
+    ("augmented-assignment", ["q9 += x"], True, False),
+    ("multi-target-assignment", ["q9 = r9 = x + 1"], True, False),
     ("del", ["del x"], True, False),
-    ("with", ["with x:", "    u = x + 1"], True, False),
+    ("with", ["with x:", "    q9 = x + 1"], True, False),
     ("chained-comparison", ["q9 = 0 < x < 1"], True, False),
     ("pass", ["pass"], True, False),
     ("assert", ["assert x"], True, False),
-    ("try", ["try:", "    u = x + 1", "except Exception:", "    u = x"], True, False),
+    ("try", ["try:", "    q9 = x + 1", "except Exception:", "    q9 = x"], True, False),
     ("global", ["global zz9"], True, False),
     ("expression-statement", ["op.Abs(x)"], True, False),
-    ("conditional-expression", ["u = x if x else x"], True, False),
+    ("conditional-expression", ["q9 = x if x else x"], True, False),
     ("bool-operator", ["q9 = x and x"], True, False),
     ("lambda", ["q9 = lambda a: a"], True, False),
     ("list-comprehension", ["q9 = [x for _ in range(2)]"], True, False),
@@ -246,9 +246,9 @@ INSERTS = [
     ("starred-assignment", ["p9, *q9 = op.Split(x, num_outputs=2)"], True, False),
     ("attribute-access", ["q9 = x.T"], True, False),
     ("tuple-from-non-call", ["p9, q9 = x"], True, False),
-    ("range-two-args", ["for i9 in range(0, 2):", "    u = x + 1"], True, False),
-    ("for-over-list", ["for i9 in [1, 2]:", "    u = x + 1"], True, False),
-    ("while-expression", ["while x > 0:", "    u = x + 1"], True, False),
+    ("range-two-args", ["for i9 in range(0, 2):", "    q9 = x + 1"], True, False),
+    ("for-over-list", ["for i9 in [1, 2]:", "    q9 = x + 1"], True, False),
+    ("while-expression", ["while x > 0:", "    q9 = x + 1"], True, False),
     ("continue", ["continue"], True, True),
     ("bare-break", ["break"], True, True),
     ("break-not-last", ["if q9:", "    break"], True, True),  # preceded by q9 definition, followed by a statement
@@ -289,7 +289,7 @@ def text_mutants(prog):
             if kind == "break-not-last":
                 lv = st["loop"][1]
                 cond = f"q9 = {lv} >= 1" if st["loop"][0] == "for" else f"q9 = {lv}"
-                ins = [cond] + ins + ["u = x + 1"]
+                ins = [cond] + ins + ["r9 = x + 1"]
                 off = at + 2
             if kind in ("continue", "bare-break"):
                 pass
@@ -387,6 +387,11 @@ def check_mutants(item):
         v = classify_refusal(kind, exc, rel, exact, span)
         if v is None:
             counts["refused-with-position"] += 1
+        elif v[0] == "refusal-without-position":
+            what = re.sub(r"'[^']*'|\d+", "#", str(exc).split("\n")[0])[:60]
+            counts["refused-without-position:" + kind] = counts.get("refused-without-position:" + kind, 0) + 1
+            viols.setdefault(f"C02|refusal-without-position|{type(exc).__name__}: {what}",
+                             {"what": v[1], "mutation": kind, "source": src[-1500:]})
         else:
             viols.setdefault(f"C02|{v[0]}|{kind}|{type(exc).__name__}", {"what": v[1], "source": src[-1500:]})
 
@@ -414,7 +419,7 @@ def check_mutants(item):
             linecache.cache.pop(fname, None)
         except Exception as e:  # noqa: BLE001
             exc = e
-        record(kind, site, exc, rel, required, mark is not None, src)
+        record(kind, site, exc, rel, required, mark is not None and kind != "return-inside-control-flow", src)
     res = {"status": "viol" if viols else "ok", "outcome": "mutants-" + ("violation" if viols else "all-refused-or-supported"),
            "nkey": nkeys or [base], "counts": counts, "show": text}
     if viols:
